@@ -9,6 +9,7 @@ import subprocess
 import sys
 import tempfile
 import time
+import traceback
 from concurrent.futures import ThreadPoolExecutor
 
 from harness import core
@@ -554,7 +555,16 @@ def run(chk):
         return [S.gen_scenario(rng, "@SB@", pl, simple=pl[6]) for pl in S.placements("@SB@")]
 
     def run_sc(sc, **kw):
-        return traced_scenario_in(chk, cases, ids, rng, Sandbox(rng, sc), **kw)
+        try:
+            return traced_scenario_in(chk, cases, ids, rng, Sandbox(rng, sc), **kw)
+        except Exception:  # noqa  -- a harness failure on one scenario is reported, the others still run
+            chk.obligation("harness:scenario " + sc["name"], False, traceback.format_exc()[-2000:])
+            return None
+
+    # (0) saved scenarios first
+    for f in sorted((core.VERIF / "corpus" / "C19").glob("*.json")):
+        sc = json.load(open(f))
+        run_sc(sc, label="corpus")
 
     # (1) corpus + every placement once, random options
     rounds = 1 if quick else 6
@@ -586,7 +596,7 @@ def run(chk):
     pick = [0, 3, 5, 8, 14, 15] if quick else list(range(len(pls)))
     for i in pick:
         sc = S.gen_scenario(rng, "@SB@", pls[i], simple=False)
-        sc["pool"] = True
+        sc["pool"] = rng.random() < 0.5       # default process pool, else parallel: 0
         subs.append(sc)
     sub_boxes = [Sandbox(rng, sc) for sc in subs]
     subprocess_boxes(chk, cases, ids, sub_boxes)
